@@ -68,7 +68,7 @@ func runC03(ctx *core.Ctx, out *core.Out) {
 	if r.Chance(3, 4) {
 		max = 3000
 	}
-	st := genStream(r, StreamOpts{FromClient: fromClient, Comp: comp, MaxMsgs: 5, MaxSize: max, Controls: true, Close: r.Chance(2, 3), UseZlib: true, JSON: true})
+	st := genStream(r, StreamOpts{FromClient: fromClient, Comp: comp, MaxMsgs: 5, MaxSize: max, Controls: true, Close: r.Chance(2, 3), UseZlib: true, JSON: true, LongRuns: true})
 	// a JSON message at the end of some streams (before the close)
 	out.Count("streams", 1)
 	out.Count("encoder_rejected", int64(st.Rejected))
